@@ -15,6 +15,7 @@ CONFIG = dict(
           "while a fourth has only its first event; its second event may claim any frame up to the true maximum (> 101): Build must assign exactly 101, "
           "Process must accept claims above 101 and reject claims above the true maximum; non-trivial = true maximum above the Build cap."),
     assumptions=["forking validators hold < 1/3 of the weight", "one epoch without sealing"],
+    level_more='In a third of the Build histories one mutable event object is rebuilt after its parents were changed.',
     units=[dict(test="TestC04FrameRule", quick=700, thorough=40000, shards=16),
            dict(test="TestC04DeepLag", quick=6, thorough=320, shards=16)],
 )
